@@ -41,8 +41,9 @@ structure BuildSt where
   splRev : List Key      -- splitters emitted so far, reversed
   lcpRev : List Nat      -- splitter_lcp entries emitted so far, reversed
 
+/-- `*lcp_iter_++ = lcpKeyType(prevkey, mykey) | ((mykey & 0xFF) ? 0 : 0x80)` into `unsigned char splitter_lcp[]` -/
 def lcpEntry (prev mykey : Key) : Nat :=
-  lcpKeyType prev mykey + (if lowByte mykey = 0 then 128 else 0)
+  u8 (lcpKeyType prev mykey + (if lowByte mykey = 0 then 128 else 0))
 
 /-- `recurse(lo, hi, treeidx, rec_prevkey)`; fuel = remaining tree levels -/
 def buildRec (samples : Array Key) (ns : Nat) :
